@@ -90,3 +90,22 @@ Qed.
 
 Example C29_ex_sequence_accepted : lint [ex_t] ([add_field ex_t ex_y] ++ [ex_fn]) = Accept.
 Proof. vm_compute. reflexivity. Qed.
+
+(** The premise "the appended field's name is none of the names the old combinator's types
+    mention" ([field_step_ok], [comb_ext]) is about FULL type names ([Name.String()], the key of
+    the linter's name map): a field called [point] next to an old field of type [geo.point] is
+    fine (first example).  The premise cannot be dropped: compareTypes resolves an OLD field's type
+    name among the NEW combinator's field names, so a correctly masked field that is merely CALLED
+    like a non-namespaced type an old field mentions is refused, although nothing changes on the
+    wire (second example; finding: replayed on the real linter by lib/checks/C29.py, class
+    namecoll:unqualified-type-name). *)
+Definition nc_old : comb :=
+  mkComb "h" 3 false false [] [mkField "fm" None "" (TRef "#" false []); mkField "a" (Some ("fm", 0%N)) "" (TRef "int" false []);
+                              mkField "c" None "" (TRef "geo.point" false [])] "H" (TRef "" false []).
+Example C29_ex_field_named_like_namespaced_type :
+  lint [nc_old] [add_field nc_old (mkField "point" (Some ("fm", 1%N)) "" (TRef "long" false []))] = Accept.
+Proof. vm_compute. reflexivity. Qed.
+Theorem C29_refuted_field_named_like_type :
+  lint [nc_old] [add_field nc_old (mkField "int" (Some ("fm", 1%N)) "" (TRef "long" false []))] = Reject RRefChanged.
+Proof. vm_compute. reflexivity. Qed.
+Print Assumptions C29_refuted_field_named_like_type.
